@@ -151,9 +151,34 @@ fn patterns(n: usize) -> Vec<(&'static str, Vec<i64>)> {
     v
 }
 
+/// A tournament of size `k` through every constructor the library offers (chosen by the
+/// configuration, so each is used throughout): `new`, `of_size::<K>()`, `binary()`.
+fn make_tournament(k: usize, variant: usize) -> (Tournament, &'static str) {
+    let by_new = (Tournament::new(NonZeroUsize::new(k).unwrap()), "Tournament::new");
+    if variant % 2 == 0 {
+        return by_new;
+    }
+    match k {
+        1 => (Tournament::of_size::<1>(), "Tournament::of_size::<1>"),
+        2 if variant % 4 == 1 => (Tournament::binary(), "Tournament::binary"),
+        2 => (Tournament::of_size::<2>(), "Tournament::of_size::<2>"),
+        3 => (Tournament::of_size::<3>(), "Tournament::of_size::<3>"),
+        4 => (Tournament::of_size::<4>(), "Tournament::of_size::<4>"),
+        5 => (Tournament::of_size::<5>(), "Tournament::of_size::<5>"),
+        6 => (Tournament::of_size::<6>(), "Tournament::of_size::<6>"),
+        7 => (Tournament::of_size::<7>(), "Tournament::of_size::<7>"),
+        8 => (Tournament::of_size::<8>(), "Tournament::of_size::<8>"),
+        9 => (Tournament::of_size::<9>(), "Tournament::of_size::<9>"),
+        10 => (Tournament::of_size::<10>(), "Tournament::of_size::<10>"),
+        16 => (Tournament::of_size::<16>(), "Tournament::of_size::<16>"),
+        _ => by_new,
+    }
+}
+
 fn tournament_config(n: usize, k: usize, pname: &str, vals: &[i64], draws: u64, seed: u64, rep: &mut Report) {
     let pop: Vec<LInd> = vals.iter().enumerate().map(|(id, v)| LInd { id: id as u32, val: *v }).collect();
-    let sel = Tournament::new(NonZeroUsize::new(k).unwrap());
+    let (sel, ctor) = make_tournament(k, n + fnv_str(pname) as usize % 4);
+    rep.count(&format!("constructor:{ctor}"));
     let mut rng = TraceRng::derive(seed, "C07-tournament", mix(n as u64, mix(k as u64, fnv_str(pname))));
     let mut wins = vec![0u64; n];
     let mut subsets: BTreeMap<u128, u64> = BTreeMap::new();
@@ -163,7 +188,7 @@ fn tournament_config(n: usize, k: usize, pname: &str, vals: &[i64], draws: u64, 
     let mut pair_incl = vec![0u64; if big { n * n } else { 0 }];
     let mut subset_applicable = k >= 2;
     let max_val = *vals.iter().max().unwrap();
-    let cfg = format!("n={n} k={k} {pname}");
+    let cfg = format!("n={n} k={k} {pname} via {ctor}");
     // exact per-draw facts also under hostile streams (all zeros / all ones / alternating ...)
     for mut hr in TraceRng::hostile_variants((n * 131 + k) as u64) {
         for _ in 0..4 {
